@@ -202,8 +202,9 @@ func (it *Interp) rtPanic(fr *frame, kind, msg string) {
 	gp := &guestPanic{kind: kind, msg: msg, site: it.site(instr)}
 	// attribute to the innermost frame inside the module under test
 	ki := instr
-	for i := len(it.callStack) - 1; i >= 0; i-- {
-		f := it.callStack[i]
+	cs := it.sched.cur.callStack
+	for i := len(cs) - 1; i >= 0; i-- {
+		f := cs[i]
 		if f.fn.Pkg != nil && strings.HasPrefix(f.fn.Pkg.Pkg.Path(), modPath) && f.cur != nil {
 			ki = f.cur
 			break
@@ -456,16 +457,19 @@ func (it *Interp) callFunctionBody(caller *frame, fn *ssa.Function, args []Value
 	for i, fv := range fn.FreeVars {
 		fr.env[fv] = env[i]
 	}
-	it.callStack = append(it.callStack, fr)
+	myG := it.sched.cur
+	myG.callStack = append(myG.callStack, fr)
+	it.callStack = myG.callStack
 	defer func() {
 		it.depth--
 		r := recover()
 		if r != nil && it.panicStack == nil {
-			for _, f := range it.callStack {
+			for _, f := range myG.callStack {
 				it.panicStack = append(it.panicStack, it.site(f.cur))
 			}
 		}
-		it.callStack = it.callStack[:len(it.callStack)-1]
+		myG.callStack = myG.callStack[:len(myG.callStack)-1]
+		it.callStack = myG.callStack
 		if r == nil && len(fr.defers) == 0 {
 			return
 		}
